@@ -106,5 +106,15 @@ loop:
 		result = append(result, innerRing[i])
 	}
 
+	// A new alphabet key may already be in the list as a non-alphabet member:
+	// keep a single entry for it.
+	for i := 0; i < len(result); i++ {
+		for j := len(result) - 1; j > i; j-- {
+			if result[j].Equal(result[i]) {
+				result = append(result[:j], result[j+1:]...)
+			}
+		}
+	}
+
 	return result, nil
 }
